@@ -211,7 +211,7 @@ func noDatetime(ss []*Schema) bool {
 func genFlatSchema(rng *rand.Rand, meta bool) []*Schema {
 	keys := []string{"a", "b", "c", "n", "x", "value"}
 	if meta {
-		keys = append(keys, "a,b", "q\"x", "nl\nx", " lead", "semi;colon")
+		keys = append(keys, "a,b", "q\"x", "nl\nx", " lead", "semi;colon", "#conns", "#", "x#y", "-", "'q", "\\.", "tab\there", "=1", "héllo")
 	}
 	rng.Shuffle(len(keys), func(i, j int) { keys[i], keys[j] = keys[j], keys[i] })
 	n := 1 + rng.Intn(5)
@@ -243,7 +243,7 @@ func streamCSV(o *Out, rng *rand.Rand, thorough bool, _ []string) {
 		for p := 0; p < parts; p++ {
 			var schema []*Schema
 			if rng.Intn(2) == 0 {
-				schema = genFlatSchema(rng, rng.Intn(3) == 0)
+				schema = genFlatSchema(rng, rng.Intn(2) == 0)
 			} else {
 				for {
 					schema = genSchema(rng, 0, 3, false, 9)
